@@ -98,15 +98,14 @@ Fixpoint units_lor (b : list N) : list N :=
   | _ => []
   end.
 
-Lemma dec_units_go_even b : lenN b mod 2 = 0 -> dec_units_go b = Ok (units_lor b).
+Lemma dec_units_go_all b : dec_units_go b = Ok (units_lor b).
 Proof.
-  induction b as [| a | lo hi r IH] using list_ind2; intros H.
-  - reflexivity.
-  - cbn in H. discriminate.
-  - cbn [dec_units_go units_lor]. rewrite IH; [reflexivity|].
-    rewrite !lenN_cons in H. replace (1 + (1 + lenN r)) with (lenN r + 1 * 2) in H by lia.
-    now rewrite N.mod_add in H by discriminate.
+  induction b as [| a | lo hi r IH] using list_ind2; try reflexivity.
+  cbn [dec_units_go units_lor]. now rewrite IH.
 Qed.
+
+Lemma dec_units_go_even b : lenN b mod 2 = 0 -> dec_units_go b = Ok (units_lor b).
+Proof. intros _. apply dec_units_go_all. Qed.
 
 Lemma units_lor_spec b : wf_bytes b -> units_lor b = units_of_le b.
 Proof.
